@@ -21,16 +21,22 @@ LoadOK(cfg, ref, post) ==
       [] cfg.disc = "unordered" -> Members(post) = Members(ref) /\ NoDup(post)          \* sets deduplicate
       [] cfg.disc \in {"linkedset", "sortedset"} -> post = AddAll(setcfg(cfg), <<>>, ref) \* ... and sort
   ELSE
-    /\ NoDup(PKeys(post))
-    /\ IF cfg.bidi
-       THEN \* any outcome of Putting the members of the decoded map in some order:
-            /\ Members(post) \subseteq Graph(ref)
-            /\ {post[i][2] : i \in DOMAIN post} = {p[2] : p \in Graph(ref)}
-            /\ \A i, j \in DOMAIN post : post[i][2] = post[j][2] => i = j                \* stays one-to-one
-       ELSE Members(post) = Graph(ref)
+    \* keys the comparator cannot tell apart are one key; which of their members survives is free (Go's map
+    \* iteration order decides), but it is one of the members the text gives (per exact key: the last one)
+    LET keq(a, b) == IF cfg.sorted THEN Eqv(cfg.cmp, a, b) ELSE a = b IN
+    /\ \A i, j \in DOMAIN post : keq(post[i][1], post[j][1]) => i = j
+    /\ Members(post) \subseteq Graph(ref)
+    /\ \A k \in RKeys(ref) : cfg.bidi \/ \E i \in DOMAIN post : keq(post[i][1], k)
+    /\ (cfg.bidi =>
+          \* any outcome of Putting the members of the decoded map in some order:
+          /\ \A i, j \in DOMAIN post : post[i][2] = post[j][2] => i = j                \* stays one-to-one
+          /\ (ref # <<>> => post # <<>>)
+          \* when no two member names are the same key for the comparator, only values collide, and then every
+          \* value of the text ends up with one of the keys that carry it
+          /\ ((\A k1, k2 \in RKeys(ref) : keq(k1, k2) => k1 = k2) =>
+                 {post[i][2] : i \in DOMAIN post} = {p[2] : p \in Graph(ref)}))
     /\ (cfg.sorted => Ascending(cfg.cmp, PKeys(post)))                                   \* ordered containers sort
     /\ ((cfg.disc = "linkedmap" /\ NoDup([i \in DOMAIN ref |-> ref[i][1]])) => PKeys(post) = [i \in DOMAIN ref |-> ref[i][1]])
-
 
 \* well-formedness of a content for its discipline ("the container stays sound")
 ContentWF(cfg, c) ==
